@@ -54,7 +54,7 @@ func runC18(r *R) {
 				check := func(target ssa.Instruction, what string) {
 					gE, _ := Guard(cb, get.(ssa.Instruction), target, ErrNilC(get))
 					gP := GuardOrPass(cb, pdh.(ssa.Instruction), target, nil, pdhGuard...)
-					dom := pdh.Block().Dominates(target.Block()) && get.Block().Dominates(pdh.Block())
+					dom := Precedes(pdh, target) && Precedes(get, pdh)
 					r.Check(gE && gP && dom && argOK, "C18-R1", cb, what, target.Pos(), "after the backend succeeded and its manifest hashed to the requested PDH", what+" is reachable before/without the received manifest having been verified against the requested portable data hash (verified="+boolS(gP)+" err="+boolS(gE)+" order="+boolS(dom)+")")
 				}
 				n := 0
@@ -177,9 +177,19 @@ func runC18(r *R) {
 			}
 		})
 		okLoop := false
+		var chanSize ssa.Value
+		allInstrs(fn, func(in ssa.Instruction) {
+			if mc, ok := in.(*ssa.MakeChan); ok {
+				chanSize = mc.Size
+			}
+		})
 		allInstrs(fn, func(in ssa.Instruction) {
 			if bo, ok := in.(*ssa.BinOp); ok && bo.Op.String() == "<" {
 				if c, isC := Resolve1(bo.Y).(*ssa.Call); isC && CalleeName(c.Common()) == "builtin.cap" {
+					okLoop = true
+				}
+				// or the very value the channel was sized with (n := len(conn.remotes); make(chan error, n); for i := 0; i < n; …)
+				if chanSize != nil && (Strip(bo.Y) == Strip(chanSize) || SameCanon(bo.Y, chanSize)) {
 					okLoop = true
 				}
 			}
